@@ -6,7 +6,7 @@ use crate::rng::Rng;
 use crate::term::*;
 
 /// (source text, expected message, expected error code, expected first line of the trace)
-pub const SOURCES: [(&str, &str, &str, &str); 24] = [
+pub const SOURCES: [(&str, &str, &str, &str); 26] = [
     ("error boom", "boom", "NONE", "boom"),
     ("error {two words}", "two words", "NONE", "two words"),
     ("throw MYCODE thrown", "thrown", "MYCODE", "thrown"),
@@ -31,6 +31,8 @@ pub const SOURCES: [(&str, &str, &str, &str); 24] = [
     ("throw EMPTYMSG {}", "", "EMPTYMSG", ""),
     ("rceb", "", "NONE", ""),
     ("error \"\\nsecond\"", "\nsecond", "NONE", ""),
+    ("set x \"abc", "missing \"", "NONE", "missing \""),
+    ("rec [rec a", "missing close-bracket", "NONE", "missing close-bracket"),
 ];
 
 pub const PRELUDE: &str = "proc pa2 {a b} {}; set nonint abc; proc rce {} {return -code error rmsg}; proc rcei {} {return -code error -errorcode ECODE -errorinfo {given info} imsg}; proc rcec {} {return -code error -errorcode ONLYCODE cmsg}; proc rceo {} {return -errorcode OCODE -code error omsg}; proc rceb {} {return -code error}";
@@ -75,7 +77,7 @@ pub fn gen(tier: &str, seed: u64) -> Gen {
         stacks.extend(next.iter().cloned());
         level = next;
     }
-    let variants = ["host", "catch", "rethrow", "rethrow2", "rethrow3", "quiet"];
+    let variants = ["host", "catch", "catchafter", "rethrow", "rethrow2", "rethrow3", "quiet"];
     let mut n = 0;
     for s in &stacks {
         for src in 0..SOURCES.len() {
@@ -89,7 +91,20 @@ pub fn gen(tier: &str, seed: u64) -> Gen {
             }
         }
     }
-    (cases, vec![(format!("24 error sources (incl. empty messages) x every stack of proc/if/foreach/while/self-removing-proc frames of depth<={} x 6 observation variants (host, catch, rethrow x3, quiet)", maxdepth), n, thorough)])
+    // long chains of procedures: every one of them is named in the trace
+    let mut nd = 0;
+    for depth in &[70usize, 100, 150] {
+        let frames: Vec<&str> = vec!["proc"; *depth];
+        for src in &[0usize, 2, 4, 11] {
+            for v in &["host", "catch", "rethrow"] {
+                let (_, m, c, f) = SOURCES[*src];
+                cases.push(tl(vec![ts(v), tl(vec![ts(m), ts(c), ts(f), tb(*src == 11)]), tstrs(&frames), ts(&failing(*src, &frames))]));
+                nd += 1;
+            }
+        }
+    }
+    let n = n + nd;
+    (cases, vec![(format!("26 error sources (incl. empty messages and bodies that do not parse) x every stack of proc/if/foreach/while/self-removing-proc frames of depth<={} x 7 observation variants (host, catch, catch after an earlier error, rethrow x3, quiet); plus chains of 70, 100 and 150 procedures", maxdepth), n, thorough)])
 }
 
 fn host_obs(interp: &mut molt::Interp, script: &str) -> Term {
@@ -111,6 +126,11 @@ pub fn run(case: &Term) -> Term {
         "catch" => host_obs(
             &mut interp,
             &format!("set c [catch {{{}}} r o]; rec caught $c $r [dict get $o -code] [dict get $o -errorcode] [dict get $o -errorinfo] $errorCode $errorInfo", f),
+        ),
+        // the same after an earlier, different error on the same interpreter
+        "catchafter" => host_obs(
+            &mut interp,
+            &format!("catch {{error earlier}}; set c [catch {{{}}} r o]; rec caught $c $r [dict get $o -code] [dict get $o -errorcode] [dict get $o -errorinfo] $errorCode $errorInfo", f),
         ),
         "rethrow" => host_obs(
             &mut interp,
